@@ -131,10 +131,11 @@ def norm_impl_outs(per_chunk):
 
 
 # ----------------------------------------------------------------------------- generators
-def gen_packet(rng, ty=None, sizes='small'):
-    """a well-formed HCI packet (per SPEC) as a segment descriptor"""
-    ty = ty if ty is not None else rng.choice(VALID_TYPES)
-    pre, ls = SPEC[ty]
+def gen_packet(rng, ty=None, sizes='small', spec=None):
+    """a well-formed HCI packet (per SPEC, or per SPEC + vendor extension) as a segment descriptor"""
+    spec = spec or SPEC
+    ty = ty if ty is not None else rng.choice(sorted(spec))
+    pre, ls = spec[ty]
     maxlen = 255 if ls == 1 else (0x3FFF if ty == 5 else 65535)
     r = rng.below(100)
     if sizes == 'tiny':
@@ -319,7 +320,15 @@ def classify_exc(e):
 
 
 # ----------------------------------------------------------------------------- drivers: push parser
-def impl_push(chunks, driver, raising_sink=False):
+EXT_FMT = {1: 'B', 2: 'H'}
+
+
+def ext_dict(ext):
+    """[[type, length_size, length_offset], ...] -> PacketParser.extended_packet_info"""
+    return {ty: (ls, lo, EXT_FMT[ls]) for ty, ls, lo in (ext or [])}
+
+
+def impl_push(chunks, driver, raising_sink=False, ext=None):
     """Feed chunks to the real PacketParser / StreamPacketSource; per chunk, the sink calls
     and 'E' for an InvalidPacketError raised by feed_data."""
     from bumble.transport import common
@@ -335,6 +344,8 @@ def impl_push(chunks, driver, raising_sink=False):
     per_chunk = []
     if driver == 'parser':
         parser = common.PacketParser(Sink())
+        if ext:
+            parser.extended_packet_info = ext_dict(ext)
         for c in chunks:
             before = len(rec.packets)
             err = None
@@ -351,6 +362,8 @@ def impl_push(chunks, driver, raising_sink=False):
     async def main():
         source = common.StreamPacketSource()
         source.set_packet_sink(Sink())
+        if ext:
+            source.parser.extended_packet_info = ext_dict(ext)
         # the model outputs an Error marker where feed_data raises; data_received hides
         # the exception, so observe it at the parser boundary of the same object
         raised = []
@@ -938,20 +951,27 @@ def _packet_bytes_from_digest(descs, o):
 
 
 # ----------------------------------------------------------------------------- case construction
-def push_case(descs, sizes, driver, raising_sink=False, probe=False):
+def push_case(descs, sizes, driver, raising_sink=False, probe=False, ext=None):
     if probe:
         total = len(stream_of(descs))
         sizes = list(sizes)
         if sum(sizes) < total:
             sizes.append(total - sum(sizes))
         descs = descs + [['P', PROBE, 0, 0]]
-    return {'kind': 'push', 'descs': descs, 'sizes': sizes, 'driver': driver, 'raising_sink': raising_sink}
+    c = {'kind': 'push', 'descs': descs, 'sizes': sizes, 'driver': driver, 'raising_sink': raising_sink}
+    if ext:
+        c['ext'] = ext
+    return c
 
 
 def case_expr(c):
     k = c['kind']
     if k == 'push':
-        return f"outs_digest (snd (feeds packet_info reset ({coq_chunks(c['descs'], c['sizes'])})))"
+        table = 'packet_info'
+        if c.get('ext'):
+            # HCI_PACKET_INFO.get(t) or extended_packet_info.get(t): first match in the concatenation
+            table = '(packet_info ++ [' + '; '.join(f'({ty}, mkInfo {ls} {lo} {ls})' for ty, ls, lo in c['ext']) + '])'
+        return f"outs_digest (snd (feeds {table} reset ({coq_chunks(c['descs'], c['sizes'])})))"
     if k == 'splits':
         # every single split point of one stream, evaluated in one expression
         return (f"let st := mk_stream {coq_descs(c['descs'])} in "
@@ -999,7 +1019,9 @@ def _short(c):
 
 def _run_push(ctx, c, mres):
     chunks = cut(c['sizes'], stream_of(c['descs']))
-    impl = norm_impl_outs(impl_push(chunks, c['driver'], c.get('raising_sink', False)))
+    impl = norm_impl_outs(impl_push(chunks, c['driver'], c.get('raising_sink', False), c.get('ext')))
+    if c.get('ext'):
+        ctx.count('push.with_extended_packet_info')
     nontriv = splits_inside_packet(c['descs'], c['sizes']) or any(d[0] == 'X' for d in c['descs'])
     ctx.case(('push', c['descs'], c['sizes'], c['driver']), nontriv,
              c if ctx.evaluations % 500 == 3 else None)
@@ -1024,7 +1046,7 @@ def _run_push(ctx, c, mres):
 
 def is_zero_body(d):
     ty = d[1][0] if d[1] else None
-    if ty in SPEC and d[2] == 0:
+    if ty in SPEC and d[2] == 0:  # (vendor types are not counted)
         pre, ls = SPEC[ty]
         return len(d[1]) == 1 + pre + ls
     return False
@@ -1173,6 +1195,24 @@ def gen_cases(ctx, splitter_params):
         descs, sizes = gen_push_scenario(rng, npk, psizes, mode, errors=(i % 3 == 0))
         cases.append(push_case(descs, sizes, 'parser' if i % 2 == 0 else 'source',
                                raising_sink=(i % 7 == 0 and i % 2 == 0), probe=(i % 5 == 0)))
+    # vendor extension table (PacketParser.extended_packet_info): a vendor type, and an entry
+    # that tries to override a standard type (the standard table wins)
+    for i in range(ctx.n(60, 800)):
+        ext = rng.choice([[[0xFF, 1, 1], [4, 2, 2]], [[0xF0, 2, 0]], [[0xFE, 1, 0], [0xFF, 2, 3], [1, 1, 0]]])
+        spec = dict(SPEC)
+        for ty, ls, lo in ext:
+            if ty not in SPEC:
+                spec[ty] = (lo, ls)
+        mode = rng.choice(['one', 'bytes', 'fine', 'mid', 'split1'])
+        descs = []
+        for _ in range(rng.range(1, 5)):
+            ty = rng.choice(sorted(spec)) if rng.chance(1, 2) else rng.choice([t for t in spec if t not in SPEC])
+            descs.append(gen_packet(rng, ty, rng.choice(['tiny', 'small']), spec))
+            if rng.chance(1, 6):
+                bad = rng.choice([b for b in (0, 6, 0x7F, 0xFD, 0xFC) if b not in spec])
+                descs.append(['X', [bad] + list(rng.bytes(rng.below(3)))])
+        cases.append(push_case(descs, sizes_with_boundaries(rng, descs, mode),
+                               'parser' if i % 2 == 0 else 'source', ext=ext))
     # garbage streams: correspondence only
     for i in range(ctx.n(100, 2000)):
         descs = gen_garbage(rng)
@@ -1465,7 +1505,7 @@ def replay(ctx, obj):
         chunks = cut(c['sizes'], stream_of(c['descs']))
         print('chunks:', [x.hex() for x in chunks][:40])
         print('delivered:', [[(o[0], o[1].hex()) if o[0] == 'P' else o for o in row]
-                             for row in impl_push(chunks, c['driver'])][:40])
+                             for row in impl_push(chunks, c['driver'], c.get('raising_sink', False), c.get('ext'))][:40])
     elif c['kind'] == 'server':
         for k, cl in enumerate(c['clients']):
             print(f'client {k} sends:', [x.hex() for x in client_chunks(cl)])
